@@ -148,7 +148,8 @@ func (w *regWorld) body(s *vsched.Sched) {
 			if kind == "badindex" {
 				idx = "7"
 			}
-			pl := full.NewPlugin(idx, fmt.Sprintf("p%d", i))
+			// the name of each plugin ends in "-" + the name of every later one ("x-x-p", "x-p", "p")
+			pl := full.NewPlugin(idx, strings.Repeat("x-", len(sc.Plugins)-1-i)+"p")
 			if kind == "syncfail" {
 				pl.SyncFn = func([]*api.PodSandbox, []*api.Container) ([]*api.ContainerUpdate, error) {
 					return nil, errors.New("plugin refuses the state")
